@@ -10,10 +10,10 @@
     The liveness half of the statement ("is executed once the pool is running") is proved in its
     safety form only (C09_never_stranded: a queued task of a running pool at rest always has a
     live worker serving the queue); that this worker is eventually scheduled and that Queue.get
-    returns a queued item are fairness / the queue's contract, outside the model.  The FIFO clause
-    for a single worker is not proved.  Both are decided on the implementation by the oracle over
-    the explored schedules. *)
-From JR Require Import Pool PoolBase PoolInvDefs PoolInvE PoolInvG PoolInvH PoolSafety PoolLifecycle PoolGrowth PoolHist.
+    returns a queued item are fairness / the queue's contract, outside the model; it is decided
+    on the implementation by the oracle over the explored schedules.  The FIFO clause for a single
+    worker is C09_single_worker_fifo (max_threads = 1: the bodies begin in the order of the puts). *)
+From JR Require Import Pool PoolBase PoolInvDefs PoolInvE PoolInvG PoolInvH PoolSafety PoolLifecycle PoolGrowth PoolFifo PoolHist.
 
 Theorem C09_at_most_once : forall mx mn progs sched t,
   valid_cfg mx mn -> (tstarts (run sched (init mx mn progs)) t <= 1)%nat.
@@ -59,3 +59,16 @@ Proof.
   - exact (i_nb _ (reachable_inv1 mx mn progs sched Hv)).
 Qed.
 Print Assumptions C09_never_stranded.
+
+(** with a single worker allowed (max_threads = 1) task bodies begin in submission order: tasks are numbered
+    in the order of their put, [start_log] lists the tasks whose body began, most recent first ([desc]:
+    every element is greater than all that follow it), and it records every begin (second theorem) *)
+Theorem C09_single_worker_fifo : forall mn progs sched,
+  valid_cfg 1 mn -> desc (start_log (run sched (init 1 mn progs))).
+Proof. exact single_worker_fifo. Qed.
+Print Assumptions C09_single_worker_fifo.
+
+Theorem C09_start_log_records_every_begin : forall mx mn progs sched t,
+  count_occ Nat.eq_dec (start_log (run sched (init mx mn progs))) t = tstarts (run sched (init mx mn progs)) t.
+Proof. exact start_log_counts. Qed.
+Print Assumptions C09_start_log_records_every_begin.
